@@ -199,7 +199,10 @@ func (k *checker) judge(p *pki, o optCase, r *result) {
 				continue
 			}
 			if lib, strict := ekuJudge(ch, kuOptions[o.KU]); lib && !strict {
-				h["info:chain accepted although no single requested usage is permitted by every certificate"]++
+				// "Key usage is considered a constraint down the chain" (VerifyOptions.KeyUsages): a chain satisfies the
+				// request only when ONE requested usage survives every certificate. 0 cases on the unchanged tree.
+				k.violation(p, o, r, "unsound chain: every certificate permits some requested usage but no single requested usage is permitted by all of them", ch, listName[li], "")
+				h["eku:chain accepted without a usage common to all its certificates"]++
 			}
 			accept, boundary := dateClasses(ch, now)
 			if accept&listClass[li] == 0 {
@@ -320,9 +323,48 @@ func (k *checker) stupid(p *pki, o optCase, base, named *result) {
 	k.w.hist[fmt.Sprintf("stupid:trusted=%v matches=%v err-nil=%v", val.BrowserTrusted, val.MatchesDomain, err == nil)]++
 }
 
-// completeness information (never a verdict).
-func (k *checker) info(p *pki, ku int, r *result) {
-	ref := refChains(p, kuOptions[ku])
+// refSet: the reference-valid chains of one (PKI, requested usages) pair with, per chain, the documented rule
+// that would explain its absence from Verify's answer.
+type refSet struct {
+	chains [][]*gcert
+	ids    []string
+	reason []string
+}
+
+func newRefSet(p *pki, ku int) *refSet {
+	rs := &refSet{chains: refChains(p, kuOptions[ku])}
+	for _, ch := range rs.chains {
+		rs.ids = append(rs.ids, chainID(ch))
+		rs.reason = append(rs.reason, missReason(p, ch))
+	}
+	return rs
+}
+
+func (p *pki) chainNames(ch []*gcert) []string {
+	var names []string
+	for _, g := range ch {
+		for _, c := range p.certs {
+			if c.g == g {
+				names = append(names, c.name)
+				break
+			}
+		}
+	}
+	return names
+}
+
+// complete is the completeness / non-vacuity oracle. The statement promises soundness only, so a missing chain is
+// a verdict only where nothing documented can explain it:
+//   - a reference-valid chain that no rule of the search prunes (missReason == reasonOther) must be returned
+//     (buildChains: "returns all chains of length < maxIntermediateCount");
+//   - in a 0-deviation PKI every date class that holds a reference-valid chain (not pruned by a per-chain rule)
+//     away from a window boundary must be non-empty in Verify's answer, also where the memo may swap chains.
+//
+// Chain building does not depend on the time or the DNS name, so this runs on every case; the information
+// counters are fed by the (instant 0, no DNS name) case only.
+func (k *checker) complete(p *pki, o optCase, r *result, rs *refSet) {
+	count := o.T == 0 && o.DNS == 0
+	now := fx.T0.Add(instants[o.T])
 	got := map[string]bool{}
 	for li := range r.lists {
 		for _, ch := range r.lists[li] {
@@ -330,29 +372,51 @@ func (k *checker) info(p *pki, ku int, r *result) {
 		}
 	}
 	refIDs := map[string]bool{}
-	for _, ch := range ref {
-		id := chainID(ch)
+	var wantClass [3]bool
+	var wantEx [3][]*gcert
+	for i, ch := range rs.chains {
+		id, why := rs.ids[i], rs.reason[i]
 		refIDs[id] = true
-		if !got[id] {
-			k.w.missed++
-			why := missReason(p, ch)
-			k.w.hist["info:missed reference-valid chain: "+why]++
-			if strings.HasPrefix(why, "other") {
-				key := p.topo.Name
-				if _, ok := k.w.missEx[key]; !ok || len(p.atoms) < k.w.missEx[key].n {
-					var names []string
-					for _, g := range ch {
-						for _, c := range p.certs {
-							if c.g == g {
-								names = append(names, c.name)
-								break
-							}
-						}
+		if why == reasonOther || why == reasonRejoin {
+			if accept, boundary := dateClasses(ch, now); !boundary {
+				for li := range listClass {
+					if accept == listClass[li] {
+						wantClass[li], wantEx[li] = true, ch
 					}
-					k.w.missEx[key] = missExample{len(p.atoms), map[string]any{"deviations": p.describeAtoms(), "usages": kuOptions[ku], "missed_chain": names, "returned": r.total()}}
 				}
 			}
 		}
+		if got[id] {
+			continue
+		}
+		if why == reasonOther {
+			k.violation(p, o, r, "completeness: a chain that satisfies every clause of the statement and that no documented rule of the search prunes is not returned (Verify returned "+bucket(r.total())+" chains)",
+				ch, "", "requested usages "+fmt.Sprint(requested(kuOptions[o.KU])))
+		}
+		if !count {
+			continue
+		}
+		k.w.missed++
+		k.w.hist["info:missed reference-valid chain: "+why]++
+		if why == reasonRejoin {
+			key := p.topo.Name
+			if _, ok := k.w.missEx[key]; !ok || len(p.atoms) < k.w.missEx[key].n {
+				k.w.missEx[key] = missExample{len(p.atoms), map[string]any{"deviations": p.describeAtoms(), "usages": kuOptions[o.KU], "missed_chain": p.chainNames(ch), "returned": r.total()}}
+			}
+		}
+	}
+	if len(p.atoms) == 0 {
+		for li := range wantClass {
+			if wantClass[li] && len(r.lists[li]) == 0 {
+				k.violation(p, o, r, "non-vacuity: the 0-deviation PKI has a reference-valid "+listName[li]+" chain but Verify lists no "+listName[li]+" chain", wantEx[li], listName[li], "")
+			}
+		}
+		if count {
+			k.w.hist[fmt.Sprintf("baseline: reference chains=%s returned=%s", bucket(len(rs.chains)), bucket(r.total()))]++
+		}
+	}
+	if !count {
+		return
 	}
 	for id := range got {
 		if !refIDs[id] {
@@ -360,7 +424,7 @@ func (k *checker) info(p *pki, ku int, r *result) {
 			k.w.hist["info:returned chain outside the strictest reading (sound under the accepted alternatives)"]++
 		}
 	}
-	k.w.hist["ref:reference-valid chains="+bucket(len(ref))]++
+	k.w.hist["ref:reference-valid chains="+bucket(len(rs.chains))]++
 }
 
 func (k *checker) runPKI(p *pki, full bool) {
@@ -373,11 +437,17 @@ func (k *checker) runPKI(p *pki, full bool) {
 		res[o] = r
 		k.judge(p, o, r)
 	}
-	// information: per key-usage option, at the first instant, DNS ""
-	for ku := range kuOptions {
-		if r := res[optCase{0, ku, 0}]; r != nil && !r.panicked {
-			k.info(p, ku, r)
+	// completeness / non-vacuity against the reference enumeration (one per requested usage list)
+	var refs [len(kuOptions)]*refSet
+	for _, o := range optionSet(full) {
+		r := res[o]
+		if r.panicked {
+			continue
 		}
+		if refs[o.KU] == nil {
+			refs[o.KU] = newRefSet(p, o.KU)
+		}
+		k.complete(p, o, r, refs[o.KU])
 	}
 	// ValidateWithStupidDetail on the overlap (default usages)
 	for o, named := range res {
@@ -434,6 +504,9 @@ func main() {
 			k := &checker{c, wk}
 			r := p.verify(w.Opt)
 			k.judge(p, w.Opt, r)
+			if !r.panicked {
+				k.complete(p, w.Opt, r, newRefSet(p, w.Opt.KU))
+			}
 			k.stupid(p, w.Opt, p.verify(optCase{w.Opt.T, 0, 0}), p.verify(optCase{w.Opt.T, 0, w.Opt.DNS}))
 			fmt.Printf("replayed %s %v %+v: err=%v current=%d expired=%d never=%d\n", p.topo.Name, p.describeAtoms(), w.Opt, r.err, len(r.lists[0]), len(r.lists[1]), len(r.lists[2]))
 			c.States.Add(1)
@@ -568,7 +641,7 @@ func main() {
 		for t, e := range missEx {
 			exOut[t] = e.ex
 		}
-		c.Set("info_missed_other_smallest_example_per_topology", exOut)
+		c.Set("info_missed_by_rejoin_smallest_example_per_topology", exOut)
 		c.Set("pkis", len(jobs))
 		c.Set("distinct_certificates_minted", mintCount.Load())
 		c.Set("info_reference_valid_chains_not_returned", missed)
